@@ -18,6 +18,10 @@ CLAIMED = {
           "Seeded histories crossed with commit schedules, clearCaches (boundary and mid-block) and restarts; oracles: equality with a twin that never commits, equality with a fresh replay up to the last committed height after a loss, and re-convergence after the lost calls are fed again. Sampling, not proof.",
           "Process stop = dropping the engine and reopening the RocksDB directories (completed writes survive). Reorgs excluded here (covered by C01/C04).",
           "DESIGN.md 4 C03"),
+  "C04": ("fault_enumeration", "deterministic simulation with fault enumeration: process death injected before every persistent write (failpoints), reopen, repairing reorg, replica oracle",
+          "For each seeded history every persistent write of commitToDatabase, reorg and finalisation is a crash point (quick: table boundaries, first/last write of every op and a random fill; thorough: every index); the directory is reopened and judged against a fresh replay (state of the last commit for crashes outside commit/reorg; state of H after brc20_reorg(H) for crashes inside). Exhaustive over the crash indices of the generated histories only; the histories themselves are sampled.",
+          "Process-death semantics: completed RocksDB writes survive, simulated by failing the write and all later ones and dropping the instance. Power loss with unsynced WALs is outside the statement ('the process dies').",
+          "DESIGN.md 4 C04"),
   "C05": ("exploration", "deterministic simulation: out-of-protocol call injection at every position class, before/after observation + clean-twin oracle",
           "Seeded valid histories with 21 kinds of malformed / out-of-protocol calls injected at block boundaries and mid-block; listed kinds must be rejected, rejected calls must leave observations unchanged, and the history must stay equal to a clean twin without the injected calls. Sampling, not proof.",
           "State of the block under construction is observed indirectly (continuation of the block and the clean twin).",
